@@ -171,6 +171,8 @@ def run(repo, tier):
     out.append(violation("R-ARGWIN", fi, role, bad[1], bad[0]) if bad else
                holds("R-ARGWIN", fi, role, "%d forward call(s)" % len(fwd), fwd[0], nontrivial=False))
 
+    # ---- ARGS-AS-GIVEN: the windowed extra arguments reach the model as the caller supplied them (device move only)
+    out += args_as_given_rule(fi)
     # ---- ORDER
     out += order_rule(fi, loop, pm)
     # ---- ARGS-CHECK
@@ -180,6 +182,61 @@ def run(repo, tier):
     # ---- purity
     out += pure_params(repo, fi, ["X", "args"])
     out += container_rule(fi)
+    return out
+
+
+DTYPE_CHANGERS = {"type", "float", "double", "half", "bfloat16", "long", "int", "short", "bool", "byte", "char", "type_as", "astype"}
+
+
+def args_as_given_rule(fi):
+    """model(X[i], args[0][i], ...): every element of `args` reaches the model with the caller's values and dtype.  The element expression of
+    the comprehension over `args` is a window of the element followed by device moves only (`.to(device)`, `.cuda()`, `.cpu()`); a
+    conversion (`.to(device, dtype)`, `.type(..)`, `.float()` ...) changes what the model sees for integer / boolean / float64 arguments."""
+    from ..core import named
+    role = "every extra argument reaches the model as supplied: windowed and moved to the device, never converted"
+    comps = [n for n in ast.walk(fi.node) if isinstance(n, (ast.ListComp, ast.GeneratorExp)) and any(
+        isinstance(g.iter, ast.Name) and g.iter.id == "args" for g in n.generators)]
+    comps = [c for c in comps if isinstance(c.generators[0].target, ast.Name) and
+             any(isinstance(x, ast.Name) and x.id == c.generators[0].target.id for x in ast.walk(c.elt)) and
+             not (isinstance(c.elt, ast.Call) and isinstance(c.elt.func, ast.Name))]
+    if not comps:
+        return [unrecognised("ARGS-GIVEN", fi, role, "no comprehension that selects from the elements of `args`")]
+    out = []
+    for c in comps:
+        var = c.generators[0].target.id if isinstance(c.generators[0].target, ast.Name) else None
+        e = c.elt
+        verdict = None
+        while True:
+            if isinstance(e, ast.Call) and isinstance(e.func, ast.Attribute):
+                f = e.func.attr
+                if f == "to":
+                    kws = {k.arg for k in e.keywords}
+                    if len(e.args) > 1 or "dtype" in kws or any(isinstance(a, ast.Attribute) and isinstance(a.value, ast.Name) and a.value.id == "torch" for a in e.args) \
+                            or any(isinstance(a, ast.Name) and a.id == "dtype" for a in e.args):
+                        verdict = ("bad", "`%s` also converts the dtype" % unparse(e)[:60])
+                        break
+                    if kws - {"device", "non_blocking"}:
+                        verdict = ("unknown", unparse(e)[:60])
+                        break
+                elif f in DTYPE_CHANGERS:
+                    verdict = ("bad", "`.%s(..)` converts the argument" % f)
+                    break
+                elif f not in ("cuda", "cpu", "contiguous", "detach", "pin_memory", "repeat", "repeat_interleave", "expand", "unsqueeze", "clone"):
+                    verdict = ("unknown", unparse(e)[:60])
+                    break
+                e = e.func.value
+            elif (isinstance(e, ast.Subscript) and isinstance(e.value, ast.Name) and e.value.id == var) or (isinstance(e, ast.Name) and e.id == var):
+                verdict = ("ok", "")
+                break
+            else:
+                verdict = ("unknown", unparse(e)[:60])
+                break
+        if verdict[0] == "bad":
+            out.append(named("ARGS-GIVEN", fi, role, "%s: integer index / boolean mask / float64 arguments no longer reach the model as given" % verdict[1], c))
+        elif verdict[0] == "unknown":
+            out.append(unrecognised("ARGS-GIVEN", fi, role, "element expression `%s` is not a window followed by device moves" % verdict[1], c))
+        else:
+            out.append(holds("ARGS-GIVEN", fi, role, unparse(c.elt)[:60], c, nontrivial=True))
     return out
 
 
